@@ -382,6 +382,15 @@ func (c *Checker) checkC03Msg(msg sdk.Msg, ok bool) {
 				c.Counters["dust_fill_paid_zero"]++
 			}
 		}
+		// a filled seller may only receive coins in the ask denoms of its own filled orders
+		if !signers[s] {
+			for _, d := range c.allDenoms(s) {
+				if pay[s][d] == nil && c.post.BankOf(s, d).Cmp(c.pre.BankOf(s, d)) > 0 {
+					c.report("C03", "seller-paid-in-wrong-denom", fmt.Sprintf("seller %s of a filled order received %s %s, but its filled order(s) ask for %v", s,
+						new(big.Int).Sub(c.post.BankOf(s, d), c.pre.BankOf(s, d)), d, sortedStr(pay[s])), nil)
+				}
+			}
+		}
 	}
 	// bank
 	for _, a := range c.allAccounts() {
